@@ -6,11 +6,106 @@ HOOK_COMMITS = ["283b3a1"]
 
 # id -> (level, technique, text, note, design_ref)
 CHECKS = {
- "C01": ("exploration",
-         "reference-model runtime monitor: real Program::tau_star() output evaluated by a sound three-valued evaluator vs independent ground mini-gringo semantics, on generated programs x HT interpretations; reduct-based stable models vs equilibrium models",
-         "Held on every generated (rule, H, T) and (program, facts, T) observed in this run: the formulas produced by the real tau* code have the truth value the ground semantics prescribes. Reach comes from tens of thousands of generated rules with colliding variable names, all operators, finite and co-finite extents; nothing is proved.",
-         "Trusted base: the oracle kit (three-valued evaluator over the infinite standard domain, ground reference semantics, reduct-based stable-model checker); division follows the repository's documented convention; interpretations with finite or co-finite extents only.",
-         "DESIGN.md section 5 C01, appendices A and B"),
+ 'C01': ('exploration',
+   'reference-model runtime monitor: formulas returned by the real Program::tau_star() evaluated by a sound three-valued evaluator vs independent ground mini-gringo semantics on generated programs x HT interpretations; reduct-based stable models vs equilibrium models',
+   'Held on every generated (rule, H, T) and (program, facts, candidate T) observed in the run. Reach comes from tens of thousands of generated rules (colliding variable names, all operators, intervals, partial division) and finite/co-finite interpretations; nothing is proved.',
+   "Trusted base: the oracle kit in /verif/harness/src/kit (three-valued evaluator over the infinite standard domain, ground mini-gringo reference semantics with reduct-based stable models, strict TFF reader); division follows the repository's documented convention; interpretations have finite or co-finite extents over small value pools.",
+   'DESIGN.md 5/C01, appendices A, B'),
+ 'C02': ('exploration',
+   "reference-model runtime monitor: problems returned by the real ExternalEquivalenceTask::decompose evaluated on interpretations built from reference stable models of either side; 'some problem refuted' vs the reference witness condition (produces/determined)",
+   'Held on every generated (task, flags, direction, interpretation) observed: an interpretation refutes an emitted problem exactly when the reference semantics says it witnesses a behavioural difference in that direction.',
+   "Trusted base: the oracle kit in /verif/harness/src/kit (three-valued evaluator over the infinite standard domain, ground mini-gringo reference semantics with reduct-based stable models, strict TFF reader); division follows the repository's documented convention; interpretations have finite or co-finite extents over small value pools. Stable models are enumerated for tiny programs only; interpretations are restricted to the vocabulary of the task.",
+   'DESIGN.md 5/C02'),
+ 'C03': ('exploration',
+   'reference-model runtime monitor: problems of the real StrongEquivalenceTask::decompose evaluated under hp->H(p), tp->T(p) vs ground HT satisfaction of the two programs, incl. H not a subset of T',
+   'Held on every generated (pair, representation, flags, direction, H, T) observed.',
+   "Trusted base: the oracle kit in /verif/harness/src/kit (three-valued evaluator over the infinite standard domain, ground mini-gringo reference semantics with reduct-based stable models, strict TFF reader); division follows the repository's documented convention; interpretations have finite or co-finite extents over small value pools.",
+   'DESIGN.md 5/C03'),
+ 'C04': ('exploration',
+   'reference-model runtime monitor: classical evaluation of the real completion(tau* P, inputs) vs reduct-based stable-model check; structural scan for completed definitions; refusal of mutated non-completable theories',
+   'Held on every generated (tight program, input set, interpretation) observed and on every mutated non-completable theory (four classes).',
+   "Trusted base: the oracle kit in /verif/harness/src/kit (three-valued evaluator over the infinite standard domain, ground mini-gringo reference semantics with reduct-based stable models, strict TFF reader); division follows the repository's documented convention; interpretations have finite or co-finite extents over small value pools. Tightness is anthem's own verdict (checked by C11).",
+   'DESIGN.md 5/C04'),
+ 'C05': ('exploration',
+   'runtime monitor with two evaluator modes: HT (Kripke) evaluation of F vs classical evaluation of the real gamma(F) under hp->H, tp->T; injectivity of the h-/t-copies',
+   'Held on every generated (formula, H, T, assignment) observed.',
+   'The HT and classical modes of the evaluator share only the term layer; copies are named by prefixing h/t as documented.',
+   'DESIGN.md 5/C05'),
+ 'C06': ('exploration',
+   "runtime monitor: formulas rendered by Problem's Display (the --save-problems path), read back by a strict TFF reader/type checker and evaluated under the standard interpretation of the preamble symbols vs the source formula",
+   'Held on every generated formula and sampled task formula observed: accepted by the strict reader, same truth value, same binder and constant sorts.',
+   "Strict TFF reader and its standard interpretation of the preamble symbols are trusted (cross-checked against the repository's tptp4X in the kit self-test).",
+   'DESIGN.md 5/C06, appendix C'),
+ 'C07': ('exploration',
+   'runtime monitor: before/after evaluation (HT or classical per portfolio) of the three portfolios x three strategies driven through the real Apply::apply/apply_fixpoint with an instrumented closure; per-rewrite fire counts; first-bad-step attribution; redex templates and feedback of intermediate nodes',
+   'Held on every (portfolio, strategy, formula) observed; every rewrite of every portfolio fired in the run (otherwise the run is inconclusive for it).',
+   "Trusted base: the oracle kit in /verif/harness/src/kit (three-valued evaluator over the infinite standard domain, ground mini-gringo reference semantics with reduct-based stable models, strict TFF reader); division follows the repository's documented convention; interpretations have finite or co-finite extents over small value pools. The instrumented closure folds the portfolio exactly like convenience::compose (a CLI sample checks that `anthem simplify` prints the same).",
+   'DESIGN.md 5/C07'),
+ 'C08': ('exploration',
+   'reference-model runtime monitor: HT evaluation of the real natural()/mu() formulas vs the tau* formula of the same rule and vs the ground reference semantics',
+   'Held on every generated (translation, rule, H, T) observed, incl. interpretations with symbols, #inf, #sup where a wrongly integer-sorted variable would show.',
+   "Trusted base: the oracle kit in /verif/harness/src/kit (three-valued evaluator over the infinite standard domain, ground mini-gringo reference semantics with reduct-based stable models, strict TFF reader); division follows the repository's documented convention; interpretations have finite or co-finite extents over small value pools.",
+   'DESIGN.md 5/C08'),
+ 'C09': ('exploration',
+   'runtime monitor: every problem text of generated accepted tasks (hostile identifier shapes, all flag combinations) read by a strict TFF lexer/parser/type checker; saved files compared byte-for-byte with the in-process text',
+   'Held on every emitted problem observed, except for the open known findings (three identifier-mangling defects recorded in known_findings.json, matched by root-cause class).',
+   'Strict TFF reader implements the fragment of DESIGN.md appendix C.',
+   'DESIGN.md 5/C09, 7'),
+ 'C10': ('fault_enumeration',
+   'fault injection + offline log checker: the real `anthem verify` binary against a stand-in vampire that answers per plan (17 behaviours) and records every invocation, -n 1..8, random delays; checker over event log, stdin bytes, stdout and saved files; plus Prover::prove_all under Miri with a mock prover over scheduler seeds',
+   'Every planned prover behaviour and whole-run fault was observed many times; on each run exactly-once delivery, byte identity with --save-problems, verdict, per-problem status and the instance bound held; Miri reported no data race, deadlock or leak in the fan-in on the seeds explored.',
+   "A run delivered Theorem iff its stdout is valid UTF-8 and the first SZS status line says Theorem; three combinations are don't-care for the verdict (see DESIGN). Schedules are sampled, not enumerated.",
+   'DESIGN.md 5/C10, 6'),
+ 'C11': ('exploration',
+   "runtime monitor with independent reference implementations: own cycle detection on the positive dependency graph and own implementation of the manual's regularity definition vs is_tight()/is_regular()/CLI; injected precondition violations must be refused in-process and by the CLI with nothing emitted",
+   "Held on every generated program (both directions of 'exactly when') and on every task with one injected precondition violation (9 classes).",
+   'Unary minus is read as 0 - t in the regularity definition (manual silent).',
+   'DESIGN.md 5/C11'),
+ 'C12': ('exploration',
+   'runtime monitor: auto-generated axioms read from the emitted problem text by the strict TFF reader and evaluated under the standard interpretation; structural check of the symbol-order chain',
+   'No auto-generated axiom evaluated to False on the sampled standard interpretations; quantified preamble axioms are sampled around every constant (counts of definite-true vs no-counterexample are in the evidence); the order chain covers all symbols and is increasing, except for the open known finding on renamed symbols.',
+   'Truth of universally quantified preamble axioms over $int/general is sampled, not certified.',
+   'DESIGN.md 5/C12'),
+ 'C13': ('exploration',
+   'runtime monitor: history check over the emitted problem list (every axiom justified at that point), induction soundness sampled on interpretations where the emitted base and step hold, refusal of ill-formed definitions',
+   'Held on every generated outline task observed.',
+   "Formula identity by syntax tree; anthem's own closure function is used for matching lemma formulas only.",
+   'DESIGN.md 5/C13'),
+ 'C14': ('exploration',
+   'round-trip monitor: parse -> print -> parse (equal trees) -> print (equal text) on grammar-directed and generated mini-gringo texts for Program, Rule, Head, Body, Term; CLI sample',
+   'Held on every accepted text observed.',
+   "Tree equality is anthem's derived PartialEq.",
+   'DESIGN.md 5/C14'),
+ 'C15': ('exploration',
+   'round-trip monitor: parse -> print -> parse -> print on target-language formulas, theories, specifications, user guides and on everything translate/simplify print (in-process and real CLI stdout fed back to `anthem parse`)',
+   'Held on every accepted text observed.',
+   "Tree equality is anthem's derived PartialEq.",
+   'DESIGN.md 5/C15'),
+ 'C16': ('exploration',
+   'crash monitor: mutated and generated inputs through an in-process catch_unwind pre-filter and the real release and dev binaries in subprocesses, classified by exit status, signal, stderr and CPU-time limit',
+   'No panic, abort, signal or CPU-limit hit on any (command, input) observed; reported errors and successes are counted separately.',
+   'A non-zero exit with a message and no `panicked at` is a reported error; the dev profile adds overflow and debug assertions.',
+   'DESIGN.md 5/C16'),
+ 'C17': ('exploration',
+   'reference-model runtime monitor: eval(F[x:=t], s) vs eval(F, s[x := value of t]) in classical and HT mode and the free-variable law on generated (formula, variable, term) triples with hostile binder names',
+   'Held on every generated triple observed.',
+   "Trusted base: the oracle kit in /verif/harness/src/kit (three-valued evaluator over the infinite standard domain, ground mini-gringo reference semantics with reduct-based stable models, strict TFF reader); division follows the repository's documented convention; interpretations have finite or co-finite extents over small value pools.",
+   'DESIGN.md 5/C17'),
+ 'C18': ('exploration',
+   'runtime monitor: node-visit counter inside the real apply_fixpoint (bounded progress, no wall clock), idempotence, and byte comparison of three runs of each command in fresh processes',
+   'Every fixpoint run terminated within the step bound (max passes observed is reported) and was idempotent; all repeated CLI runs were byte-identical.',
+   'Termination is decided as bounded progress.',
+   'DESIGN.md 5/C18'),
+ 'C19': ('exploration',
+   'metamorphic runtime monitor: the problem families of the 8 flag combinations of one task evaluated on the same interpretations (random, HT-derived and model-guided); refutation must agree in all families',
+   'Held on every (task, direction, interpretation) observed.',
+   'Evaluator only; no reference semantics of programs is needed for the verdict.',
+   'DESIGN.md 5/C19'),
+ 'C20': ('exploration',
+   'model-based runtime monitor: a role-assignment model written from the statement vs the real CLI on random directory layouts and argument permutations, byte comparison of saved problems; swap symmetry of directions',
+   'Held on every generated layout observed.',
+   'Directory expansion order is by file-name bytes, depth first.',
+   'DESIGN.md 5/C20'),
 }
 
 PENDING = {}
